@@ -8,6 +8,7 @@ from .report import Ctx, VIOLATION
 from .rules import closures as RC
 from .rules import potentials as RP
 from .rules import generic as RG
+from .rules import domain as RD
 
 PROPS = {}
 
@@ -54,6 +55,30 @@ prop('C03',
      'the bound |g| <= residual/r on solved objects (a numerical statement about converged solves); that '
      'exp(-high_value/kT) underflows to 0 in floating point (premise of (c), recorded as an assumption).',
      ['exp(-high_value/kT) == 0.0 in double precision for the default high_value'])
+
+
+prop('C07',
+     [('R00.dyn', RG.rule_no_dynamic), ('R07.i', RD.rule_mutators), ('R07.g', RD.rule_grid),
+      ('R07.t', RD.rule_roundtrip), ('R07.l', RD.rule_linearity), ('R08.t', RD.rule_prefactors),
+      ('R07.m', RD.rule_matrixarray_transforms)],
+     'Static analysis of pyPRISM/core/Domain.py: the constructor and the three property setters are abstractly '
+     'interpreted with symbolic length/spacings; after each mutator every grid attribute (_dr,_dk,_length,r,k,DST '
+     'coefficient arrays,long_r) must equal, as a canonical term, that of a freshly constructed Domain with the same '
+     'length and dr (an inductive invariant, so it covers every setter sequence); the grids must be dr*(1+iota(length)) '
+     'with a point count determined by length alone; to_real(to_fourier(f)) and the reverse normalise to the identity '
+     'using linearity of the DST and dst3 o dst2 = 2N id; both transforms are linear; the MatrixArray versions refuse '
+     'an array already in the target space before any write, transform every unordered pair through the symmetric '
+     'setter and set the flag after the loop.',
+     'rounding error magnitude; the behaviour of scipy.fftpack.dst itself (trusted, A2).')
+
+prop('C08',
+     [('R00.dyn', RG.rule_no_dynamic), ('R08.f', RD.rule_prefactors), ('R07.g', RD.rule_grid)],
+     'Static analysis: the extracted transforms equal dst2(2 pi r dr f)/k and dst3(k dk/(4 pi^2) F)/r term by term '
+     '(absolute prefactors of the 3-D radial pair: with the factor 2 built into DST-II/III, forward 4 pi and backward '
+     '1/(2 pi^2)), DST types 2/3 without normalisation keywords, dk = pi/(dr*length), r_i=(i+1)dr, k_j=(j+1)dk. This is '
+     'exactly the compensating-error class to which the round-trip test is blind.',
+     'the O(dr) error bound against the continuous transform and its decrease under refinement (numerical analysis; '
+     'not a shape of the code).')
 
 
 def run(pid, tier, repo, seed=0, replay=None):
